@@ -1,8 +1,54 @@
 import JokerVerif.Drive.Common
-/-! Driver handlers for C19 (to be filled in). -/
-open Lean Drive
+import JokerVerif.Drive.SDCommon
+import JokerVerif.Model.Diag
+/-! Driver handlers for C19.  Doubles arrive as bit patterns and are turned into exact rationals: the answers are
+the exact values of the definitions on the declared numbers.  `diag.map` is also run at `Float` (IEEE sums, the
+arithmetic `np.argmax` sees). -/
+open Lean Drive Drive.SD
 namespace Drive
 
-def diagOps : List (String × H) := []
+private def phasesOf (j : Json) : Except String (List Rat) := do
+  match j.getObjVal? "phases" with
+  | .ok _ => return (← getRats j "phases").toList
+  | .error _ =>
+    let t ← getRats j "t"; let tref ← getRat j "tref"
+    let P := (← getRat j "P") * (← optRatStr j "Pscale" 1)   -- declared value × exact unit factor (days)
+    if P == 0 then throw "P=0"
+    return t.toList.map (Diag.phase Rat.floor tref P)
+
+def diagPhaseOp : H := fun j => do
+  return Json.mkObj [("phase", jRats (← phasesOf j))]
+
+def diagGapOp : H := fun j => do
+  let ph ← phasesOf j
+  return Json.mkObj [("def", jOptRat (Diag.circGap ph)), ("code", jOptRat (Diag.maxPhaseGap ph)),
+    ("head", jOptRat (Diag.maxPhaseGapHead ph)), ("pinned", jOptRat (Diag.maxPhaseGapPinned ph)),
+    ("sorted", jRats (Diag.isort ph))]
+
+def diagCoverageOp : H := fun j => do
+  let ph ← phasesOf j
+  let n ← getNat j "n"
+  return Json.mkObj [("hist", jNats (Diag.hist n ph)), ("occupied", jNat (Diag.occupied n ph)),
+    ("value", jOptRat (Diag.phaseCoverage n ph))]
+
+def diagPeriodsOp : H := fun j => do
+  let t ← getRats j "t"
+  let P := (← getRat j "P") * (← optRatStr j "Pscale" 1)
+  return Json.mkObj [("value", jOptRat (Diag.periodsSpanned t.toList P))]
+
+def diagMapOp : H := fun j => do
+  let lpF ← getFloats j "lp"; let llF ← getFloats j "ll"
+  let lpB ← getNats j "lp"; let llB ← getNats j "ll"
+  let idxF := Diag.mapIndex lpF.toList llF.toList
+  let exact : Json :=
+    if lpB.all isFiniteBits && llB.all isFiniteBits then
+      jOptNat (Diag.mapIndex (lpB.toList.map fun v => ratOfBits v.toUInt64) (llB.toList.map fun v => ratOfBits v.toUInt64))
+    else Json.null
+  return Json.mkObj [("idx", jOptNat idxF), ("idxExact", exact),
+    ("post", jFloats (Diag.post lpF.toList llF.toList))]
+
+def diagOps : List (String × H) :=
+  [("diag.phase", diagPhaseOp), ("diag.gap", diagGapOp), ("diag.coverage", diagCoverageOp),
+   ("diag.periods", diagPeriodsOp), ("diag.map", diagMapOp)]
 
 end Drive
